@@ -42,8 +42,7 @@ pub(crate) fn symbolic_bucket(tag: u8, sym_lo: usize, sym_hi: usize, fill: u8, c
 /// `offer_ident`: 0..=7 = the identity stored in that slot, 8 = an identity not in the bucket.
 fn step(sym_lo: usize, sym_hi: usize, fill: u8, offer_ident: u8, coarse: bool) {
     // ---- symbolic inputs -------------------------------------------------------------------
-    let offer_kind: u8 = kani::any(); // 0 = as responder (good), 1 = hearsay (questionable), 2 = bad
-    kani::assume(offer_kind <= 2);
+    let offer_kind: u8 = kani::any::<u8>() % 3; // 0 = as responder (good), 1 = hearsay (questionable), 2 = bad
     clock::start_fixed();
     let mut bucket = symbolic_bucket(1, sym_lo, sym_hi, fill, coarse);
 
